@@ -27,10 +27,10 @@ F10 = "C10-10-empty-signature"
 SURG10 = {EMPTYSIG, NULLSIG}
 SURG11 = {NILHEAD, NILDIG, NULLLINK, NULLSTAMP}
 TRACKABLE = {CALC, EDIT, SIGN, UNSIGN, STAMP, LINK, TAG, META, NOTES, VALIDATE, VERIFY, REPARSE, CODE, INSERT}
-BASE_VALID = {0: True, 1: True, 2: False, 3: False}
-BASE_CALC = {0: True, 1: True, 2: True, 3: False}
-BASE_CODE = {0: True, 1: False, 2: True, 3: True}
-BASE_DOC = {0: 0, 1: 0, 2: 2, 3: 3}     # document 1 is document 0 without its code
+BASE_VALID = {0: True, 1: True, 2: False, 3: False, 4: True, 5: True, 6: True, 7: True}
+BASE_CALC = {0: True, 1: True, 2: True, 3: False, 4: True, 5: True, 6: True, 7: True}
+BASE_CODE = {0: True, 1: False, 2: True, 3: True, 4: True, 5: False, 6: True, 7: False}
+BASE_DOC = {0: 0, 1: 0, 2: 2, 3: 3, 4: 4, 5: 4, 6: 6, 7: 6}     # 1 is 0 without its code; 4 / 5 an order, 6 / 7 a delivery
 
 
 class Track:
@@ -154,7 +154,7 @@ def rand_op(rng):
                     RMTAG, RMMETA, RAWSIGN, SWAPSIGS, DUPSIG, DROPSIG, SIGN, CALC, VALIDATE])
     p, v, k, t, mk = (rng.choice(x) for x in (["p1", "p2"], ["v1", "v2"], ["l1", "l2"], ["t1", "t2"], ["m1", "m2"]))
     if c == INSERT:
-        return (c, rng.randint(0, 3))
+        return (c, rng.choice([0, 1, 2, 3, 0, 1, 4, 5, 6, 7]))
     if c in (STAMP, RAWSTAMP):
         return (c, p, v)
     if c in (LINK, RAWLINK):
@@ -287,7 +287,7 @@ def run(c):
     check_lines(c, "corpus", [(parse_case_line(l)[1], parse_case_line(l)[2]) for _, l in corpus])
     # 2. exhaustive enumeration; a history of length n contains all its prefixes
     d0, d1 = (4, 3) if quick else (5, 4)
-    for base, depth in ((0, d0), (1, d1), (2, d1), (3, d1), (-1, d1)):
+    for base, depth in ((0, d0), (1, d1), (2, d1), (3, d1), (-1, d1), (4, d1), (5, d1), (6, d1), (7, d1)):
         for pre in itertools.product(ALPHA16, repeat=max(0, depth - 4)):
             check_lines(c, "exhaustive", [(base, list(pre + seq)) for seq in itertools.product(ALPHA16, repeat=min(4, depth))],
                         note_samples=(pre in ((), (ALPHA16[2],))))
